@@ -23,27 +23,29 @@ func (e *env[E, P, D, T]) bitReverse() {
 	}
 	// 2^21..2^27 use size-specialised tiled routines, > 2^27 a generic tiled routine, everything else the naive swap loop
 	if c.Thorough() {
-		lgs = append(lgs, 17, 18, 19, 20, 21, 22, 23, 24)
-		if esz <= 8 {
-			lgs = append(lgs, 25, 26, 27)
-		}
+		lgs = append(lgs, 17, 18, 19, 20, 21, 22, 23, 24, 25, 26, 27) // 2^27 elements: 0.5 GB (31-bit fields) .. 6 GB (bw6-761)
 		if esz <= 4 {
-			lgs = append(lgs, 28)
+			lgs = append(lgs, 28) // the generic tiled routine (len > 2^27): 1 GB
 		}
 	} else {
-		lgs = append(lgs, 20, 21)
+		lgs = append(lgs, 20, 21, 22)
 		if esz <= 8 {
-			lgs = append(lgs, 22, 23)
+			lgs = append(lgs, 23, 24)
 		}
 	}
 	for _, lg := range lgs {
-		big := lg >= 21 && esz<<uint(lg) >= 1<<28
-		if big {
+		bytes := esz << uint(lg)
+		switch {
+		case bytes >= 1<<31:
+			huge.Lock()
+			e.bitRevOne(lg)
+			huge.Unlock()
+		case bytes >= 1<<27:
 			heavy <- struct{}{}
-		}
-		e.bitRevOne(lg)
-		if big {
+			e.bitRevOne(lg)
 			<-heavy
+		default:
+			e.bitRevOne(lg)
 		}
 	}
 	// random content at small sizes (independent of the tagging scheme)
@@ -110,6 +112,9 @@ func (e *env[E, P, D, T]) bitRevOne(lg int) {
 	check("not-an-involution", func(j uint64) uint64 { return j })
 	c.Class(fmt.Sprintf("%s/BitReverse/%s", N, logName(lg)))
 }
+
+// huge serialises the multi-gigabyte vectors of the thorough tier.
+var huge sync.Mutex
 
 // par splits [0,n) over a few goroutines (harness work only).
 func par(n int, f func(lo, hi int)) {
